@@ -16,7 +16,7 @@ pub fn dflt<T: Model>(seed: u64) -> T {
 
 pub fn dflt_val<T: Model>(seed: u64) -> Val {
     // cheap on purpose: default expressions run inside the library's decode call and are charged to its allocation budget
-    let ctx = GenCtx { max_len: 3, allow_large: false, max_depth: 2, tz_names: tz_names(), encodable: true, transient_ctors: false, out_of_domain: false };
+    let ctx = GenCtx { max_len: 3, allow_large: false, max_depth: 2, tz_names: tz_names(), encodable: true, transient_ctors: false, out_of_domain: false, dst_edges: false };
     gen_val(&T::ty(), &mut Rng::new(seed ^ 0x5eed_d0d0), &ctx)
 }
 
